@@ -7,7 +7,7 @@ ID = 'C16'
 FLAVOUR = {'quick': 'asan', 'thorough': 'asan'}
 THEOREMS = ['Nix.C16.tag_accesses_in_bounds', 'Nix.C16.slice_accesses_in_bounds', 'Nix.C16.slice_arg_no_raw_overrun',
             'Nix.C16.maximumExtents_length', 'Nix.C16.mtag_accesses_in_bounds',
-            'Nix.St.createMultiTag_uninitialised', 'Nix.St.createFeature_uninitialised', 'Nix.St.validHandle_none', 'Nix.SizeVec.flat_access_in_bounds', 'Nix.SizeVec.flat_access_refused', 'Nix.SizeVec.sub_access_in_bounds', 'Nix.SizeVec.idx_in_bounds', 'Nix.SizeVec.idx_refused', 'Nix.SizeVec.div_divisors_nonzero', 'Nix.SizeVec.positionInData_sound']
+            'Nix.St.createMultiTag_uninitialised', 'Nix.St.createFeature_uninitialised', 'Nix.St.validHandle_none', 'Nix.SizeVec.flat_access_in_bounds', 'Nix.SizeVec.flat_access_refused', 'Nix.SizeVec.typed_access_in_bounds', 'Nix.SizeVec.typed_access_refused', 'Nix.SizeVec.sub_access_in_bounds', 'Nix.SizeVec.idx_in_bounds', 'Nix.SizeVec.idx_refused', 'Nix.SizeVec.div_divisors_nonzero', 'Nix.SizeVec.positionInData_sound']
 LEAN_MODULES = ['NixModel.Props.C16', 'NixModel.Props.C16Sizes']
 RULE = ('abuse programs on the ASan + UBSan build of the library: (a) entity-tree histories in which every kind of call is also made through stale '
         'handles (entities deleted directly or with their parent), through never-initialised handles ($-), with indices at / past the end, '
